@@ -1,4 +1,5 @@
 import Spine.LocalTree
+import Spine.LocalTreeRead
 import Spine.Generated.Functions
 open Spine.LTree
 /-! Line protocol for the local device tree model (C07). One op per line, one answer per line:
@@ -61,6 +62,7 @@ structure D where
   failing : List Nat := []
   tnames : List (Nat × String) := []
   fnames : List (Nat × String) := []
+  rd : Option Rd := none      -- a read in progress (overlapped-read block)
 
 def D.cap (d : D) (k fid fn : Nat) : Bool :=
   match (d.s.pool k).feats.find? (·.id = fid) with
@@ -73,7 +75,7 @@ def D.cap (d : D) (k fid fn : Nat) : Bool :=
 def answer (d : D) (ws : List String) : D × String :=
   let out := fun (os : List Obs) => showAll (delivered d.failing os)
   match ws with
-  | ["reset"] => ({ d with s := init {}, failing := [] }, "ok")
+  | ["reset"] => ({ d with s := init {}, failing := [], rd := none }, "ok")
   | ["name", "t", i, n] => match i.toNat? with
     | some i => ({ d with tnames := (i, n) :: d.tnames }, "ok")
     | none => (d, "bad-op")
@@ -91,6 +93,26 @@ def answer (d : D) (ws : List String) : D × String :=
       let (s', os) := step d.s (.addFn k fid fn (r == 1) (w == 1) (d.cap k fid fn))
       ({ d with s := s' }, out os)
     | _ => (d, "bad-op")
+  -- overlapped read (Spine/LocalTreeRead.lean): `rhold P K` peer P's read starts and runs until it is about to render
+  -- entity K (or to its end: then the reply is the answer); `rmove K` the held read goes on until it is about to render
+  -- K; `rrelease` it runs to its end. Ordinary ops in between meet the read where it stands.
+  | ["rhold", p, k] => match nums [p, k], d.rd with
+    | some [p, k], none =>
+      let rd := tickUntil d.s k (fuelOf d.s (rbegin d.s p)) (rbegin d.s p)
+      if rd.done then ({ d with rd := none }, out [rd.reply d.s]) else ({ d with rd := some rd }, "-")
+    | _, _ => (d, "bad-op")
+  | ["rmove", k] => match k.toNat?, d.rd with
+    | some k, some rd0 =>
+      let rd1 := tick d.s rd0
+      let rd := tickUntil d.s k (fuelOf d.s rd1) rd1
+      if rd.done then ({ d with rd := none }, out [rd.reply d.s]) else ({ d with rd := some rd }, "-")
+    | _, _ => (d, "bad-op")
+  | ["rrelease"] => match d.rd with
+    | some rd0 =>
+      let rd1 := tick d.s rd0
+      let rd := tickAll d.s (fuelOf d.s rd1) rd1
+      if rd.done then ({ d with rd := none }, out [rd.reply d.s]) else (d, "bad-op")
+    | none => (d, "bad-op")
   | ["resolve", k, id] => match nums [k, id] with
     | some [k, id] => (d, match resolve d.s k id with | some f => showFeat f | none => "none")
     | _ => (d, "bad-op")
